@@ -63,3 +63,36 @@ where
 {
     crate::io::Dispatcher::new(io, codec, service, control).keepalive_timeout(keepalive)
 }
+
+/// Sender half of a streamed `Payload` (`payload::PlSender`)
+pub struct PayloadSender(crate::payload::PlSender);
+
+impl std::fmt::Debug for PayloadSender {
+    fn fmt(&self, f: &mut std::fmt::Formatter<'_>) -> std::fmt::Result {
+        f.debug_struct("PayloadSender").finish()
+    }
+}
+
+impl PayloadSender {
+    pub fn feed_data(&self, data: ntex_bytes::Bytes) {
+        self.0.feed_data(data);
+    }
+
+    pub fn feed_eof(&self) {
+        self.0.feed_eof();
+    }
+
+    /// `drop_payload`: fail the reader with `PayloadError::Disconnected`
+    pub fn set_disconnected(&self) {
+        self.0.set_error(crate::error::PayloadError::Disconnected);
+    }
+}
+
+/// `Payload::from_stream`: the streamed payload handed to a publish handler and its sender
+pub fn payload_stream(
+    buf: ntex_bytes::Bytes,
+    buf_size: usize,
+) -> (crate::Payload, PayloadSender) {
+    let (pl, tx) = crate::Payload::from_stream(buf, buf_size);
+    (pl, PayloadSender(tx))
+}
